@@ -49,7 +49,7 @@ Proof. split; [apply check_wf_sound; vm_compute; reflexivity|split; vm_compute; 
    Proof: the line loop builds a graph that represents the file (edge-literal expansion over
    shared literal leaves), the new root over the free features has the value of node 0, and each
    of the three traversals preserves the value of every retained node on total assignments:
-   And(c, f or not f) = c, And(..,T) = And(..), Or(..,F) = Or(..), an And with a F child is F and
+   And(c, f or not f) = c, And(..,T) = And(..), Or(..,F) = Or(..), Or(..,T) = T, an And with a F child is F and
    so is every And above it; rebuild renumbers. *)
 Theorem C01_d4_loader_sem : forall toks n C n',
   d4_ok toks -> load_d4 toks n = Some (C, n') ->
@@ -66,8 +66,9 @@ Theorem C01_d4_loader_sem_any_order : forall (recycle : bool) (ord : list nat ->
 Proof. exact load_d4_gen_sem_perm. Qed.
 Print Assumptions C01_d4_loader_sem_any_order.
 
-(* the passes one by one (graph level): survivors of the true/false elimination keep label and
-   value; every node present before smoothing keeps label and value *)
+(* the passes one by one (graph level): survivors of the true/false elimination keep their value
+   (and their label, except that an or node with a true child becomes a true node: repair F12);
+   every node present before smoothing keeps label and value *)
 Theorem C01_d4_pass2_preserves : forall g root g', Inv g -> pass2 g root = Some g' ->
   forall s x b, sg_alive g' x = true -> GV g s x b -> GV g' s x b.
 Proof. exact pass2_preserves. Qed.
@@ -99,6 +100,17 @@ Theorem C01_d4_loader_wf_refuted : exists toks n C n',
   root_count C <> Z.of_nat (length (d4_models toks n')).
 Proof. exact loader_wf_refuted. Qed.
 Print Assumptions C01_d4_loader_wf_refuted.
+
+(* finding F12 (repaired): the loader before the repair leaves a true node below the or node of
+   d4's tautology idiom  o 1 0 / t 2 0 / 1 2 0  (one feature); the loader now gives a vector
+   without true/false nodes that passes check_wf and has the file's count *)
+Theorem C01_d4_or_true_child_v0 : exists toks n C C' n',
+  d4_ok toks /\
+  load_d4_f12_v0 toks n = Some (C, n') /\ In TrueN C /\ no_true_false C = false /\
+  load_d4 toks n = Some (C', n') /\ no_true_false C' = true /\ check_wf C' n' = true /\
+  root_count C' = Z.of_nat (length (d4_models toks n')).
+Proof. exact or_true_child_v0. Qed.
+Print Assumptions C01_d4_or_true_child_v0.
 
 (* Non-vacuity: tests/data/small_ex_d4.nnf and a file with smoothing, a free feature, a false
    edge and a shared node satisfy d4_ok, load (to the vectors the implementation dumped), pass
